@@ -29,8 +29,8 @@ P1Space ==
   \cup (IF "C" \in Fams THEN P1("C", {TT}, {IpfsD, Ipns("ttl"), Ipns("nottl")}, Kinds) ELSE {})
   \cup (IF "D" \in Fams THEN P1("D", {TT}, {IpfsD, IpfsS}, Kinds) ELSE {})
   \cup (IF "I" \in Fams THEN P1("I", {TT}, {IpfsD, Ipns("lm"), Ipns("ttl")}, {"file", "filem", "raw", "dcbor"}) ELSE {})
-  \cup (IF "P" \in Fams THEN P1("P", {TT}, IF Thorough THEN {IpfsS, Ipns("ttl"), IpfsD} ELSE {IpfsS},
-                                IF Thorough THEN {"file", "dirn", "dcbor"} ELSE {"file"}) ELSE {})
+  \cup (IF "P" \in Fams THEN P1("P", {TT}, IF Thorough THEN {IpfsS, Ipns("ttl")} ELSE {IpfsS},
+                                IF Thorough THEN {"file", "dcbor"} ELSE {"file"}) ELSE {})
   \cup (IF "R" \in Fams THEN P1("R", {TT, <<TRUE, FALSE>>}, {<<"ipns", "key", "direct">>, <<"ipns", "key", "sub">>,
                                      <<"ipns", "ttl", "direct">>, IpfsD}, {"file"}) ELSE {})
 
